@@ -59,6 +59,10 @@ class Prop:
     technique = "Coq proof over a Gallina model + regenerated tables + model/crate correspondence"
     level_text = ""
     level_note = ""
+    # which regenerated files / tables this property's theorems and model runs depend on: a change
+    # that breaks only another part of the tie must not make this property "no longer shown"
+    gen_deps = ("Tables.v", "Layouts.v")
+    table_deps = ("proto", "v9", "ipfix", "scope")
 
     @property
     def vo(self):
@@ -159,6 +163,7 @@ def proto_sweep_case():
 class C03(Prop):
     pid = "C03"
     keys = ["R"]
+    table_deps = ("proto",)
     technique = "Coq: generic layout-interpreter lemma + generated layouts = Cisco tables (vm_compute) + 256-entry protocol sweep; correspondence on R"
     level_text = ("Theorems C03_* (coq/Props/C03.v): for every buffer starting with a complete V5/V7 packet, in every state and allowed set, "
                   "the model reports the packet with every header and record field equal to the big-endian number at its Cisco offset, ends it at "
@@ -208,6 +213,7 @@ def e_case(rng):
 class C08(Prop):
     pid = "C08"
     keys = ["R", "X", "orig", "back", "bytes"]
+    table_deps = ("proto",)
     technique = "Coq: parse-then-print and print-then-parse for the generic layout interpreter; serializer order regenerated from to_be_bytes; correspondence on X and E5/E7"
     level_text = ("Theorems C08_* (coq/Props/C08.v): for all accepted inputs x = to_be_bytes(p) ++ rest, and for all well-formed structures "
                   "parse(to_be_bytes(p) ++ rest) = p, for V5 and V7, any count. The emission order of the hand-written serializers is regenerated "
@@ -259,7 +265,8 @@ def mixed_case(rng, tables):
 
 class C01(Prop):
     pid = "C01"
-    keys = ["R", "X", "C"]
+    keys = ["R:frame", "X:outcome", "C:outcome"]
+    gen_deps = ("Tables.v", "Layouts.v", "Inventory.v")
     technique = "Coq: totality of the fuelled model (fuel never runs out, no panic branch reachable) + panic/recursion inventory regenerated from source; correspondence on outcome, 2 MiB threads, stress families"
     level_text = ("Theorems C01_* (coq/Props/C01.v): for every buffer, every reachable state and every allowed set the model's parse_bytes returns "
                   "(explicit recursion fuel never runs out), no element carries the fuel marker, re-export of parser output never takes the panic "
@@ -284,7 +291,7 @@ class C01(Prop):
 
 class C02(Prop):
     pid = "C02"
-    keys = ["R"]
+    keys = ["R:frame"]
     technique = "Coq: induction over the packet loop with a consumption lemma per version (wire length from the packet's own header); correspondence on R"
     level_text = ("Theorems C02_* (coq/Props/C02.v): for every buffer, state and allowed set the result list is good ++ tail with the wire lengths of "
                   "good (24+48n, 24+52n, max(length,16), 20+sum max(flowset length,4), read from the packets' own headers) adding up to a prefix of the "
@@ -317,7 +324,7 @@ def partition_case(rng, tables):
 
 class C11(Prop):
     pid = "C11"
-    keys = ["R", "S"]
+    keys = ["R:frame", "S"]
     technique = "Coq: frame lemma per version parser (no parser looks past its packet) + induction over the packet loop; correspondence on R and S under all partitions"
     level_text = ("Theorems C11_* (coq/Props/C11.v): for every sequence of accepted self-delimiting packets, every state and allowed set, "
                   "parse_bytes(a ++ b) = parse_bytes(a) ++ parse_bytes(b) run on the state a leaves, final states equal, and hence every partition into "
@@ -372,7 +379,7 @@ def filter_case(rng, tables):
 
 class C12(Prop):
     pid = "C12"
-    keys = ["R", "S"]
+    keys = ["R:frame", "S"]
     technique = "Coq: simulation between the run under `allow` and the run allowing every version (results carry the state after each element); correspondence on R and S with twin parsers"
     level_text = ("Theorems C12_* (coq/Props/C12.v): for every allowed set, buffer and state, parse_bytes under `allow` is the all-allowed result cut at "
                   "the first element whose version word is not allowed, with the states attached to the surviving elements (so filtered packets change no "
@@ -418,7 +425,7 @@ def cut_case(rng, tables):
 
 class C14(Prop):
     pid = "C14"
-    keys = ["R", "S"]
+    keys = ["R:frame", "S"]
     technique = "Coq: success characterisation per version (a packet decodes iff the bytes its header announces are present); correspondence on every cut point"
     level_text = ("Theorems C14_* (coq/Props/C14.v): a V5/V7 buffer shorter than 24+48n / 24+52n, and an IPFIX buffer shorter than its message length, "
                   "is reported as one Error whose remaining is the buffer, with the parser state unchanged, for every content and state; packets before it "
@@ -511,7 +518,8 @@ def cache_case(rng, tables):
 
 class C06(Prop):
     pid = "C06"
-    keys = ["R", "S"]
+    keys = ["R:frame", "S"]
+    gen_deps = ("Tables.v", "Layouts.v", "Inventory.v")
     technique = "Coq: monotonicity invariant over histories (caches only grow), per-step frame conditions by protocol and version gate, last-definition-wins lemma for the insert fold; correspondence on S after every call, 1-3 parsers"
     level_text = ("Theorems C06_* (coq/Props/C06.v): for every buffer, state and allowed set no template is ever evicted (invariant lifted over the "
                   "packet loop, hence over every history of calls); a step whose version word is not 9 (not 10) leaves the V9 (IPFIX) caches equal, a "
@@ -602,7 +610,7 @@ def unknown_case(rng, tables):
 
 class C07(Prop):
     pid = "C07"
-    keys = ["R", "S"]
+    keys = ["R:frame", "S"]
     technique = "Coq: case analysis of the flowset/set dispatcher on lookup = None (fails, state unchanged), propagation through the V9 flowset loop and the IPFIX set loop; correspondence on data-before-template histories"
     level_text = ("Theorems C07_* (coq/Props/C07.v): for every state in which an id has no template in either map of that protocol, a V9 flowset of that "
                   "id (id not 0/1) fails whatever its bytes and the packet with it, an IPFIX set of that id (id >= 255) fails and ends the set loop "
@@ -738,7 +746,7 @@ def export_case(rng, tables, version):
 
 class C09(Prop):
     pid = "C09"
-    keys = ["R", "X", "D"]
+    keys = ["R:frame", "X", "D"]
     technique = "Coq: parse-then-print per value kind (class predicate exact_dtype defined once in Coq), per template / options-template record and per flowset envelope, for ALL accepted inputs; correspondence on X and D; oracle with the same classes"
     level_text = ("Theorems C09_* (coq/Props/C09.v): for every accepted value whose (data type, width, bytes) satisfies exact_dtype, to_be_bytes returns "
                   "exactly the bytes consumed; template and options-template records re-export exactly for every accepted input; the flowset envelope is "
@@ -763,7 +771,7 @@ class C09(Prop):
 
 class C10(C09):
     pid = "C10"
-    keys = ["R", "X", "D", "S"]
+    keys = ["R:frame", "X", "D", "S"]
     level_text = ("Theorems C10_* (coq/Props/C10.v): value-level exactness as C09 (shared predicate) for fixed-length and enterprise fields; template and "
                   "options-template records re-export exactly including the enterprise bit and enterprise number (print-then-parse of the field "
                   "specifier); message and set envelopes. Classes: the C09 value kinds, signed integers of width 1/2/8/16 (widened), variable-length "
@@ -790,7 +798,7 @@ def common_case(rng, tables):
 
 class C13(Prop):
     pid = "C13"
-    keys = ["R", "C", "F"]
+    keys = ["R:frame", "C", "F"]
     technique = "Coq: the common view of V5/V7 is the field-wise projection of each record (all present), the flat view is the in-order concatenation over non-error packets, errors convert to an error; correspondence on C and F; oracle projecting R"
     level_text = ("Theorems C13_* (coq/Props/C13.v): for V5/V7 the common structure is version, sys_up_time and one flow per record, in order, every "
                   "numeric field present and equal to the record's field, MACs absent; for V9/IPFIX one flow per decoded record map built by selecting "
@@ -818,7 +826,7 @@ class C13(Prop):
 
 class C15(Prop):
     pid = "C15"
-    keys = ["R"]
+    keys = ["R:frame"]
     technique = "Coq: output-size bounds by induction (records x record size <= bytes present, per version), count/length fields enter only through bytes actually consumed; counting global allocator in the harness against a linear bound; blow-ups as classes"
     level_text = ("Theorems C15_* (coq/Props/C15.v): the number of V5/V7 records times 48/52 plus 24 is at most the buffer length; a V9 data flowset holds "
                   "at most body/size records; every IPFIX record pass consumes at least one byte, so a data set holds at most |body| passes; every decoded "
@@ -842,6 +850,7 @@ class C17(Prop):
     pid = "C17"
     keys = ["R", "X", "C", "S"]
     puf = False
+    gen_deps = ("Tables.v", "Layouts.v", "Inventory.v")
     technique = "Coq: the model run with puf = false equals the run with puf = true on known-only templates, and decodes no record containing an unknown field; both cfg arms and the call site regenerated from source; correspondence against a --no-default-features build"
     level_text = ("Theorems C17_* (coq/Props/C17.v): from_field_type with the feature off equals the feature-on decoder on every data type except Unknown, "
                   "hence records / data flowsets over known-only templates decode identically; a V9 record or IPFIX record containing an unknown field "
